@@ -11,6 +11,8 @@ import (
 	"sync"
 	"testing"
 	"testing/synctest"
+
+	"verifharness/kit"
 )
 
 // Viol is one observed violation.
@@ -147,6 +149,33 @@ func runCase(t *testing.T, c Case) (res *Res, panicText string) {
 	defer func() {
 		if p := recover(); p != nil {
 			panicText = fmt.Sprint(p)
+			if strings.Contains(panicText, "deadlock") {
+				// the goroutines left behind are still parked: show where
+				var b strings.Builder
+				n := 0
+				lib := false
+				for _, g := range strings.Split(kit.DumpAll(), "\n\n") {
+					if strings.Contains(g, "(durable)") && strings.Contains(g, "synctest bubble") && !strings.Contains(g, "synctest.Run") && !strings.Contains(g, "testingSynctestTest") {
+						if strings.Contains(g, "github.com/boz/kcache") || strings.Contains(g, "github.com/boz/go-lifecycle") {
+							lib = true
+						}
+					}
+					if strings.Contains(g, "(durable)") && strings.Contains(g, "synctest bubble") && !strings.Contains(g, "synctest.Run") && n < 6 {
+						lines := strings.Split(g, "\n")
+						if len(lines) > 9 {
+							lines = lines[:9]
+						}
+						b.WriteString(strings.Join(lines, "\n") + "\n\n")
+						n++
+					}
+				}
+				if lib {
+					panicText += "\nLIBRARY-GOROUTINES-LEFT"
+				} else {
+					panicText += "\nHARNESS-GOROUTINES-ONLY"
+				}
+				panicText += "\nblocked goroutines left behind:\n" + b.String()
+			}
 		}
 	}()
 	if c.Bubble {
